@@ -8,6 +8,8 @@ FIX = {"src": "kani_fix.rs", "dest": "src/consensus/kani_fix.rs", "decl_in": "sr
 AGG = {"src": "kani_aggstub.rs", "dest": "src/crypto/aggsig/kani_aggstub.rs", "decl_in": "src/crypto/aggsig.rs", "decl": "pub(crate) mod kani_aggstub;"}
 CERT = {"src": "kani_certstub.rs", "dest": "src/consensus/cert/kani_certstub.rs", "decl_in": "src/consensus/cert.rs", "decl": "pub(crate) mod kani_certstub;"}
 C05COLL = {"src": "C05/c05_coll.rs", "dest": "src/c05_coll.rs", "decl_in": "src/lib.rs", "decl": "pub mod c05_coll;"}
+POOLM = {"src": "C05/kani_c05_pool.rs", "dest": "src/consensus/pool/slot_state/kani_c05_pool.rs", "decl_in": SS, "decl": "pub(crate) mod kani_c05_pool;"}
+REEXP = {"src": "C05/kani_c05_reexp.rs", "dest": "src/consensus/pool/kani_c05_reexp.rs", "decl_in": "src/consensus/pool.rs", "decl": "pub(crate) mod kani_c05_reexp;"}
 MAIN = {"src": "C05/kani_c05.rs", "dest": "src/consensus/votor/kani_c05.rs", "decl_in": VT, "decl": "mod kani_c05;"}
 
 
@@ -33,6 +35,10 @@ def sync_fn(name, params, ret):
 
 
 REDIRECTS = [
+    # pool side (slashing check of the node's own votes): the containers of slot_state.rs as in C03/C04
+    redirect(SS, "use std::collections::BTreeMap;", "use crate::verif_coll::BTreeMap;"),
+    redirect(SS, "use smallvec::SmallVec;", "use crate::verif_coll::SmallVec;"),
+    redirect(SS, "use super::sorted_vec::{SortedVecMap, SortedVecSet};", "use crate::verif_coll::{SortedVecMap, SortedVecSet};"),
     # std containers of votor.rs -> bounded array stand-ins
     redirect(VT, "use std::collections::{BTreeMap, BTreeSet};", "use crate::c05_coll::{BTreeMap, BTreeSet};"),
     # tokio mpsc (Kani internal compiler error) -> stand-in channel ends
@@ -74,31 +80,71 @@ REDIRECTS = [
 ]
 
 Q, T = ["quick", "thorough"], ["thorough"]
-STUBS = ["crypto::aggsig::SecretKey::sign", "log::max_level"]
+# the third entry is `<BlockHash as PartialEq>::eq` (Kani prints the stub as written in the attribute, spaces removed)
+STUBS = ["crypto::aggsig::SecretKey::sign", "log::max_level", "DoubleMerkleRootasPEq>::eq"]
+# 32: the 32-byte hashes stay element-wise constants (with 8 the events' block hashes stop being constants for CBMC)
 CBMC = ["--unwindset", "memcmp.0:34", "--max-field-sensitivity-array-size", "32"]
 FUNCS = ["Votor::new", "Votor::handle_pool_event", "Votor::should_ignore_pool_event", "Votor::handle_cert_created", "Votor::handle_blockstore_event", "Votor::handle_timeout_event",
-         "Votor::try_notar", "Votor::try_final", "Votor::try_skip_window", "Votor::check_pending_blocks", "Votor::set_timeouts", "Votor::prune", "Votor::broadcast", "Vote::new_*"]
+         "Votor::try_notar", "Votor::try_final", "Votor::try_skip_window", "Votor::check_pending_blocks", "Votor::set_timeouts", "Votor::prune", "Votor::state_mut / has_voted / is_retired / received_shred / first_unpruned_slot",
+         "Vote::new_notar / new_notar_fallback / new_skip / new_skip_fallback / new_final"]
+POOL_FUNCS = ["pool::slot_state::SlotState::check_slashable_offence"]
 
 
-def _h(name, tiers, role, bounds, covers, tq=420, tt=1500):
-    return {"name": name, "path": MOD, "tiers": tiers, "role": role, "functions": FUNCS, "bounds": bounds, "stubs": STUBS,
-            "covers": covers, "timeout": {"quick": tq, "thorough": tt}, "mem_gb": 10, "cbmc_args": CBMC}
+def _h(name, tiers, role, bounds, covers, pool=False):
+    return {"name": name, "path": MOD, "tiers": tiers, "role": role, "functions": FUNCS + (POOL_FUNCS if pool else []), "bounds": bounds, "stubs": STUBS,
+            "covers": covers, "timeout": {"quick": 600, "thorough": 1500}, "mem_gb": 10, "cbmc_args": CBMC}
 
 
 SPEC = {
     "property": "C05",
-    "level_text": "TODO",
-    "level_note": "TODO",
-    "overlays": [COLL, C05COLL, FIX, AGG, CERT, MAIN],
+    "level_text": "Bounded symbolic verification of the real voting logic (consensus/votor.rs) against a reference monitor written from the property statement: on a freshly constructed node (the real Votor::new), after an optional fixed prefix, 2 (quick) or 3 (thorough) further events are delivered through the real handlers handle_blockstore_event / handle_timeout_event / handle_pool_event; WHICH event comes next is chosen by the solver from the family's menu of 4-7 concrete events (blocks of two competing chains arriving in any order, first shred, invalid block, timeouts, crashed-leader timeout, ParentReady for two candidate parents, SafeToNotar, SafeToSkip, CertCreated for all five certificate types, standstill bundles), so one harness decides all orders at once. Every vote is checked at the moment it is broadcast, knowing only what the node has been shown and what it has cast before: at most one initial vote per slot (notar or skip); notar only for a received block whose parent was announced ready (first slot of a window) or is the block the node notarized in the preceding slot; final only for the block it notarized, only after that block's notarization certificate was shown, never in a slot with its skip / skip-fallback / notar-fallback vote, and none of those after final; fallback votes only in slots where it has voted and only while handling the matching SafeToNotar(slot, block) / SafeToSkip(slot) event; every vote carries the node's own validator index and is signed with its own key; certificates are re-broadcast at most once per event, standstill bundles exactly. In two harnesses every vote is additionally shown, in emission order, to the pool's real SlotState::check_slashable_offence, which never reports an offence. 16 harnesses over two leader windows (slots 1-3 behind genesis, slots 4-7 with parents in slot 3). Counterexamples are replayed natively on the unmodified async code (real tokio channels and runtime context, real BLS keys, std containers); eight seeded mutations of votor.rs were each found and reproduced natively.",
+    "level_note": "NOT an inductive proof: histories of 2-3 solver-chosen events (plus a fixed prefix of up to 2) from the fresh state, events with concrete slots/blocks per family, slots 0-7, at most 2 blocks per slot, 2 candidate parents. Under Kani the async plumbing of votor.rs is rewritten mechanically, bodies verbatim (spec.py REDIRECTS): the eight async fns are compiled as ordinary functions behind Ready-returning wrappers, `.await` on them is a poll that must complete at once, Votor::broadcast is a synchronous recorder (the All2All implementation is exercised only in native replay), tokio::spawn of the timer task is dropped (timeouts are injected events), tokio mpsc ends are inert stand-ins, std BTreeMap/BTreeSet/Vec inside votor.rs are slot-indexed / 2-element / bitmap stand-ins (c05_coll.rs), the loop over pending slots visits slot numbers 0..7 in order and skips absent ones; BlockHash equality is compared word-wise, SecretKey::sign returns a token carrying the key's identity, log::max_level() is Off. CertCreated events reach handle_cert_created through the real should_ignore_pool_event but not through handle_pool_event's match (PoolEvent keeps its discriminant in a niche of the certificate, which CBMC does not constant-fold). Environment assumptions: SafeToNotar(s,b) only after the node's initial vote in s was skip or notar for another block, SafeToSkip(s) only after its notar vote in s (what the pool's check_safe_to_notar / count_*_stake guarantee; C06). Trusts Kani 0.68 MIR translation, CBMC 6.11, CaDiCaL.",
+    "overlays": [COLL, C05COLL, FIX, AGG, CERT, POOLM, REEXP, MAIN],
     "redirects": REDIRECTS,
-    "coll_cap": 5,
-    "functions": ["consensus::votor::Votor::{" + ",".join(f.split("::")[1] for f in FUNCS if f.startswith("Votor::")) + "}"],
-    "bounds": "TODO",
-    "explanation": "TODO",
-    "assumptions": [],
-    "trusted_base": [],
-    "outside": [],
+    "coll_cap": 3,
+    "functions": ["consensus::votor::Votor::{new,handle_pool_event,should_ignore_pool_event,handle_cert_created,handle_blockstore_event,handle_timeout_event,try_notar,try_final,try_skip_window,check_pending_blocks,set_timeouts,prune,state_mut,has_voted,is_retired,received_shred,first_unpruned_slot}",
+                  "consensus::vote::Vote::{new_notar,new_notar_fallback,new_skip,new_skip_fallback,new_final}", "consensus::pool::slot_state::SlotState::check_slashable_offence (c05_slash_*)"],
+    "bounds": "fresh node; fixed prefix of 0-2 events, then 2 (quick) / 3 (thorough) events whose kind the solver picks from a per-harness menu of 4-7 concrete events; slots 0-7 (leader windows 0 and 1), <= 2 competing blocks per slot, <= 2 candidate parents per window, <= 16 votes per run; own validator index 1 of 2",
+    "explanation": "Bounded-history harnesses: K solver-chosen events on a fresh Votor through the real handlers; a reference monitor written from the property statement checks every vote at broadcast time; decided by Kani -> CBMC -> CaDiCaL for all K-event sequences over each menu at once. Two harnesses also show every vote to the pool's check_slashable_offence. Not inductive: states reachable only by longer histories are outside.",
+    "assumptions": [
+        "PoolEvent::SafeToNotar((s,b)) is delivered only after the node's own initial vote in s (skip, or notar for a block other than b) was broadcast; PoolEvent::SafeToSkip(s) only after its notar vote in s (pool: SlotState::check_safe_to_notar / count_notar_stake / count_skip_stake read the node's own stored vote). Without it the real code casts the notar-fallback vote BEFORE the skip vote when SafeToNotar arrives for a slot it has not voted in (order only; observed, not claimed as a defect)",
+        "PoolEvent::ParentReady is delivered only for the first slot of a window (set_timeouts asserts it; pool.rs documents it)",
+        "no handler ever suspends: broadcasting completes at once (under Kani by construction; a Pending poll is reported as a harness error, never a pass)",
+        "a block hash determines the block's parent (each (slot, block) of a menu has one parent)",
+        "under Kani: bounded stand-ins for std BTreeMap<Slot,_> (slots 0..7), BTreeSet<BlockId> (<= 2 elements), Vec<Slot> (bitmap) inside votor.rs and for the containers of pool/slot_state.rs (verif_coll, <= 3 entries); exceeding a bound is a hard VS-UNSUPPORTED failure for c05_coll, an excluded path for verif_coll",
+    ],
+    "trusted_base": [
+        "reference monitor Mon (kani_c05.rs), written from the property statement",
+        "mechanical rewriting of votor.rs's async plumbing under Kani (spec.py REDIRECTS; bodies verbatim, statement order unchanged) and the c05_coll.rs container stand-ins",
+        "stubs: SecretKey::sign -> identity token, <BlockHash as PartialEq>::eq -> word-wise comparison, log::max_level -> Off",
+        "opaque certificate objects (kani_certstub::opaque) for CertCreated / standstill under Kani; real certificates signed by validator 0 in native replay",
+        "pool-side model kani_c05_pool.rs: stores each fed vote where SlotState::add_vote stores it (stake counting / certificate creation of add_vote not run); SlotState built by literal for 2 validators under Kani",
+    ],
+    "outside": [
+        "histories longer than prefix + 3 events; more than two leader windows; epochs; slots >= 8",
+        "Votor::voting_loop (tokio::select! over the three channels) and the real timer task of set_timeouts (sleep durations, channel back-pressure)",
+        "Votor::broadcast's error path (panic on I/O failure) and the All2All implementations",
+        "the match arm of handle_pool_event that forwards CertCreated to handle_cert_created (both callees are real)",
+        "that SafeToNotar / SafeToSkip are only emitted when safe (C06) and that certificates shown to the node are valid (C03/C09)",
+        "liveness: that a vote IS cast when the rules allow it (only witnessed by the cover points)",
+        "duplicate final votes: a notarization certificate delivered again after the node finalized makes try_final broadcast a second, identical final vote (harmless, not excluded by the property statement; observed in c05_g_retired_k2)",
+    ],
     "harnesses": [
-        _h("c05_probe", Q, "probe", "probe", 1),
+        _h("c05_g_blocks_k2", Q, "history/blocks in any order", "fresh node, window 0; 2 events of symbolic kind among 4 block arrivals (two competing chains over slots 1-2)", 2),
+        _h("c05_g_blocks_k3", T, "history/blocks in any order", "as c05_g_blocks_k2 with 3 events", 2),
+        _h("c05_g_chain_k3", T, "history/one chain in any order", "fresh node, window 0; 3 events among the 3 blocks of one chain over slots 1-3", 2),
+        _h("c05_g_timeouts_k2", Q, "history/blocks against timeouts", "fresh node, window 0; 2 events among 2 blocks, 2 timeouts, invalid block, first shred", 2),
+        _h("c05_g_timeouts_k3", T, "history/blocks against timeouts", "fresh node, window 0; 3 events among 2 blocks, 2 timeouts, invalid block", 2),
+        _h("c05_g_final_k2", Q, "history/finalization against fallback votes", "slot 1 notarized (concrete prefix); 2 events among 2 notarization certificates, safe-to-notar, safe-to-skip, next block, timeout", 4),
+        _h("c05_g_final_k3", T, "history/finalization against fallback votes", "slot 1 notarized (concrete prefix); 3 events among 3 notarization certificates, safe-to-notar, safe-to-skip, next block", 2),
+        _h("c05_g_retired_k2", Q, "history/after the final vote", "slot 1 notarized and finalized (concrete prefix); 2 events among safe-to-notar, safe-to-skip, timeout, invalid block, competing block, notarization and finalization certificates", 3),
+        _h("c05_g_skipped_k2", Q, "history/skipped slot", "window 0 skipped (concrete prefix); 2 events among late block, 2 safe-to-notar, notarization / notar-fallback / skip certificates", 2),
+        _h("c05_w_parent_k2", Q, "history/parent ready", "fresh node, window 1 (slots 4-7); 2 events among 2 ParentReady, 3 blocks, crashed-leader timeout", 3),
+        _h("c05_w_parent_k3", T, "history/parent ready", "fresh node, window 1; 3 events among ParentReady, 2 blocks of one chain, timeout", 2),
+        _h("c05_w_crashed_k2", Q, "history/first shred and timeouts", "parent ready for slot 4 (concrete prefix); 2 events among first shred, crashed-leader timeout, block, 2 timeouts", 2),
+        _h("c05_standstill_k2", Q, "history/standstill bundle", "slot 1 notarized (concrete prefix); 2 events among notarization certificate, final certificate of window 1, two standstill bundles (1 certificate + 2 own votes)", 3),
+        _h("c05_slash_final_k2", T, "history + pool slashing check", "slot 1 notarized (concrete prefix); 2 events among notarization certificate, safe-to-notar, safe-to-skip, timeout, next block; every vote shown to SlotState::check_slashable_offence", 2),
+        _h("c05_slash_skip_k2", T, "history + pool slashing check", "fresh node; 2 events among block, timeout, safe-to-notar, notarization certificate; every vote shown to SlotState::check_slashable_offence", 2),
+        _h("c05_w_prune_k2", T, "history/finalization certificates and pruning", "slot 4 notarized (concrete prefix); 2 events among final / fast-final / notarization certificates, block, 2 timeouts, safe-to-notar", 3),
     ],
 }
